@@ -198,12 +198,22 @@ unsafe fn level_swap<M: Manager>(
             }
         }
 
-        upper.insert(manager.clone_edge(e));
         for (i, child) in new_children.into_iter().enumerate() {
             // SAFETY: we have exclusive access to all nodes at the old upper
             // level and no child is borrowed.
             manager.drop_edge(unsafe { node.set_child(i, child) });
         }
+        // The node stays at the upper level. All other nodes there carry
+        // `lower_no_pre` as their (not yet updated) level number, and later
+        // swaps identify the nodes of a level by this number.
+        // SAFETY: we have exclusive access to the node; the caller will write
+        // the final level numbers once the reordering is done.
+        unsafe { node.set_level(lower_no_pre) };
+        // Insert only now: the position in the unique table depends on the
+        // children. The level number stored in the node does not (yet) match
+        // the level number of the view, so we cannot use the checked variant.
+        // SAFETY: the caller will update level numbers accordingly
+        unsafe { upper.insert_unchecked(manager.clone_edge(e)) };
     }
 
     abort_on_panic.defuse();
